@@ -79,3 +79,35 @@ Fixpoint bools_eqb (a b : list bool) : bool :=
   | x :: a', y :: b' => Bool.eqb x y && bools_eqb a' b'
   | _, _ => false
   end.
+
+(** ** the group loop of the unbounded collections (poll_next of FuturesUnordered / MergeUnbounded)
+
+    The statements of the loop in textual order, as tools/build.py reads them from the source.
+    [fu_loop] / [fu_poll_next] of Unbounded.v are my rendering of exactly this skeleton: empty
+    => None; for each group: wrap the cursor, poll the group at the cursor; item => (count
+    down,) cursor + 1, return it; None => remove the group, keep it if it was the only one
+    (return None) or the last of the Vec (cursor 0), otherwise discard it; Pending => cursor + 1;
+    after the loop None if nothing is left, Pending otherwise. *)
+Inductive gtok :=
+| GIsEmpty | GRetNone | GFor | GWrapTest | GCurZero | GPollCur | GArmItem | GRemDec | GCurInc | GRetItem
+| GArmNone | GRemove | GPushBack | GIfLast | GArmPending | GEndRem | GEndAllEmpty | GRetPending
+| GCurOther | GRemOther | GRetOther.
+Scheme Equality for gtok.
+
+Fixpoint gtoks_eqb (a b : list gtok) : bool :=
+  match a, b with
+  | [], [] => true
+  | x :: a', y :: b' => gtok_beq x y && gtoks_eqb a' b'
+  | _, _ => false
+  end.
+
+Definition group_loop_common (count_down : list gtok) (end_test : gtok) : list gtok :=
+  [GIsEmpty; GRetNone; GFor; GWrapTest; GCurZero; GPollCur; GArmItem] ++ count_down ++
+  [GCurInc; GRetItem; GArmNone; GRemove; GIsEmpty; GPushBack; GRetNone; GIfLast; GPushBack; GCurZero;
+   GArmPending; GCurInc; end_test; GRetNone; GRetPending].
+
+Definition fu_poll_model : list gtok := group_loop_common [GRemDec] GEndRem.
+Definition mu_poll_model : list gtok := group_loop_common [] GEndAllEmpty.
+
+Definition grouploop_matches (fu mu : list gtok) : bool :=
+  gtoks_eqb fu fu_poll_model && gtoks_eqb mu mu_poll_model.
